@@ -201,6 +201,11 @@ def run(tier, replay=None):
                 problems.append("rules_immutable: the rule arena changed during scans")
             if f["handler_inside_bad"] != "0":
                 problems.append("handler_installed_iff_count_pos: %s scan(s) ran with the application's SIGBUS handler still installed" % f["handler_inside_bad"])
+            if f.get("chain_bad", "0") != "0":
+                problems.append("%s scan(s) did not enumerate (yr_string_matches_foreach) both planted occurrences of the chained hex string of rule `chain`" % f["chain_bad"])
+            if f.get("fd_delta", "0") != "0":
+                problems.append("the number of open descriptors of the process changed by %s over the scenario (descriptor leak; unmappable-file scans: %s)" %
+                                (f["fd_delta"], f.get("unmappable")))
             if f.get("fd_bad", "0") != "0":
                 problems.append("a thread's own file descriptor was closed or replaced by yr_*_scan_fd (%s check(s) failed: fstat / size / close after the scan)" % f["fd_bad"])
             if f.get("foreign_after", "1") != "1":
